@@ -53,6 +53,11 @@ func (r *c09Reader) Read(p []byte) (int, error) {
 		if r.pos >= r.k {
 			return 0, errC09
 		}
+	case "timeoutat":
+		// a connection whose read deadline has passed: the same time-out error on every further Read
+		if r.pos >= r.k {
+			return 0, os.ErrDeadlineExceeded
+		}
 	}
 	if r.pos >= len(r.data) {
 		return 0, io.EOF
@@ -61,7 +66,7 @@ func (r *c09Reader) Read(p []byte) (int, error) {
 	if r.mode == "onebyte" {
 		n = 1
 	}
-	if r.mode == "errat" && r.pos+n > r.k {
+	if (r.mode == "errat" || r.mode == "timeoutat") && r.pos+n > r.k {
 		n = r.k - r.pos
 	}
 	if r.pos+n > len(r.data) {
@@ -185,9 +190,9 @@ func c09Gen(t *rapid.T) c09Case {
 		doc = doc[:64*1024]
 	}
 	c := c09Case{Doc: []byte(doc)}
-	c.Reader = rapid.SampledFrom([]string{"whole", "whole", "string", "file", "onebyte", "errat", "dataerr", "zeros"}).Draw(t, "reader")
+	c.Reader = rapid.SampledFrom([]string{"whole", "whole", "string", "file", "onebyte", "errat", "dataerr", "zeros", "timeoutat"}).Draw(t, "reader")
 	switch c.Reader {
-	case "errat":
+	case "errat", "timeoutat":
 		c.K = rapid.IntRange(0, len(doc)).Draw(t, "errat")
 	case "zeros":
 		c.K = rapid.IntRange(1, 50).Draw(t, "zeros")
@@ -228,6 +233,9 @@ func TestC09Corpus(t *testing.T) {
 			}
 		}
 		for k := 0; k <= len(d) && k < 400; k += 7 {
+			if v := p.RunOne(c09Case{Doc: []byte(d), Reader: "timeoutat", K: k}); v != nil {
+				t.Fatalf("VIOLATION-DETAIL property=C09 %s", v)
+			}
 			if v := p.RunOne(c09Case{Doc: []byte(d), Reader: "errat", K: k}); v != nil {
 				t.Fatalf("VIOLATION-DETAIL property=C09 %s", v)
 			}
